@@ -99,6 +99,12 @@ Theorem C07_adjacent_objects : forall t lo mid w t1 t2 t3, wf t ->
   rmslice t lo (mid + w) = Ok t3 -> t2 = t3.
 Proof. exact rmslice_adjacent. Qed.
 
+(* every non-reducible part survives a removal, in its place among the non-reducible parts *)
+Theorem C07_protected_survive : forall t (a b : Z) t', wf t -> rmslice t a b = Ok t' ->
+  py_clamp (tc_len t) a <= py_clamp (tc_len t) b ->
+  filter (fun x => negb (snd x)) (zipped t') = filter (fun x => negb (snd x)) (zipped t).
+Proof. exact rmslice_keeps_nonred. Qed.
+
 (* in the functional model copy is the identity (aliasing is covered by the
    correspondence check, which compares the source object after every operation) *)
 Theorem C07_copy : forall t, copy t = t.
@@ -131,5 +137,6 @@ Print Assumptions C07_sequence.
 Print Assumptions C07_sequence_only_deletes.
 Print Assumptions C07_adjacent_ranges.
 Print Assumptions C07_adjacent_objects.
+Print Assumptions C07_protected_survive.
 Print Assumptions C07_copy.
 Print Assumptions C07_precondition_needed_refuted.
